@@ -2,7 +2,7 @@
    as translated from the current Rust source (GenImp.ctx_program, regenerated on every run). Statements only; see
    Props/C05T.v for the status of such theorems. *)
 From Coq Require Import String List Bool.
-Require Import SV.Model.Imp SV.Model.GenImp SV.Facts.ImpFacts SV.Facts.TypesRefine.
+Require Import SV.Model.Imp SV.Model.GenImp SV.Model.GenImpMacro SV.Facts.ImpFacts SV.Facts.TypesRefine SV.Facts.MacroRefine SV.Facts.LegRefine.
 Import ListNotations.
 Open Scope string_scope.
 Open Scope list_scope.
@@ -20,6 +20,25 @@ Theorem c02_translated_ctx_conversions : forall d deps env info gas events resps
     (CVal (VRec "ReplyCtx" [("deps", deps); ("env", env); ("gas_used", gas); ("events", events); ("msg_responses", resps)])).
 Proof. exact translated_ctx_conversions. Qed.
 
+(* The match arm generated for a message variant (the macro's own logic: MsgVariant::emit_dispatch_leg and
+   MsgType::emit_dispatch_leg of sylvia-derive, translated on every run - GenImpMacro.leg_fns, Facts/LegRefine.v), for a
+   variant with ANY number of fields, of every kind: the pattern binds field number j (counting from 1), by its own name, to
+   the identifier `field<j>`; the call passes `field1, field2, ..` in exactly the order of the fields; exec and sudo call the
+   handler named by the method, query serialises its answer, the other kinds have no arm. *)
+Theorem c02_translated_dispatch_arm : forall name (fs : list value) fnm k, In k six_kinds ->
+  calls LEG 3 "MsgVariant::emit_dispatch_leg" [variant_v name fs fnm k]
+    (CVal (quote_v (l_arm leg_T)
+       [("name", name); ("fields", VArr (binds_from leg_T 0 fs)); ("method_call", leg_call leg_T k fnm (args_from 0 fs))])).
+Proof. exact translated_dispatch_leg. Qed.
+
+(* ... spelled out: the identifier field j is bound to IS argument j of the call, and different positions use different
+   identifiers - so every field value reaches the parameter of its own position, whatever the number of fields *)
+Theorem c02_translated_binder_is_argument : forall fs j f, nth_error fs j = Some f ->
+  (exists x, nth_error (args_from 0 fs) j = Some x /\
+             nth_error (binds_from leg_T 0 fs) j = Some (quote_v (l_bind leg_T) [("field", VCon ".name" [f]); ("num_field", x)])) /\
+  (forall j2 f2, j <> j2 -> arg_id j f <> arg_id j2 f2).
+Proof. intros. split; [apply binder_is_argument; assumption | intros; apply arg_ids_distinct; assumption]. Qed.
+
 Example c02_translated_example :
   call ctx_program 2 40 "ExecCtx::from" [VCon "()" [VStr "deps"; VStr "env"; VStr "info"]] =
     Some (CVal (VRec "ExecCtx" [("deps", VStr "deps"); ("env", VStr "env"); ("info", VStr "info")])) /\
@@ -27,3 +46,5 @@ Example c02_translated_example :
 Proof. vm_compute. split; reflexivity. Qed.
 
 Print Assumptions c02_translated_ctx_conversions.
+Print Assumptions c02_translated_dispatch_arm.
+Print Assumptions c02_translated_binder_is_argument.
